@@ -1,7 +1,7 @@
 (* Correspondence check for C18: what the real MemoryMap did to real files and to the real address space
    (/proc/self/maps), against Model/Mmap.v over Spec/AddrSpace.v and against the direct statement. *)
 From Coq Require Import NArith List Bool.
-Require Import SDS.Model.Mach SDS.Spec.AddrSpace SDS.Model.MmapCfg SDS.Model.Mmap SDS.Check.Common.
+Require Import SDS.Model.Mach SDS.Spec.AddrSpace SDS.gen.MmapCfg SDS.Model.Mmap SDS.Check.Common.
 Import ListNotations.
 Open Scope N_scope.
 
